@@ -80,6 +80,10 @@ static int _decode
 	if (!source) {
 		if (!sourcelen) {
 			dec->_ctx = 0;
+			/* drop message in progress */
+			if (dec->data.msg < 0) {
+				dec->data.len = 0;
+			}
 		} else {
 			/* get expected/sufficient scratch area */
 			return MPT_cobs_max_dec(sourcelen) + mlen;
